@@ -8,7 +8,7 @@ use crate::util::{par_map, Kv};
 
 pub fn meta(_ctx: &Ctx) -> Meta {
     Meta {
-        rule: "block layer lists {[dense],[dense,dense]} (flat) and {[conv],[conv,conv],[deconv],[conv,deconv],[conv,pool]} (spatial, shape-preserving) x activations {linear, ReLU, tanh} x loops L in 1..4 x all 4 skip-flag combinations x all 5 accumulations x followed by a dense layer or not x fed by the network input or a preceding layer (dense -> block of spatial layers included) x 2 data valuations (exact small-integer data; inputs multiples of 60 for mean). Oracle: reference interpreter rep_1=f(x), rep_i=f(comb(rep_{i-1},[x])) with input skips, out=comb(rep_L,[rep_1..rep_{L-1}]) with output skips. Non-trivial = reference output has >= 2 distinct non-zero entries".into(),
+        rule: "block layer lists {[dense],[dense,dense]} (flat) and {[conv],[conv,conv],[deconv],[conv,deconv],[conv,pool]} (spatial, shape-preserving) x activations {linear, ReLU, tanh} x loops L in 1..4 (1..9 for three of the block lists) x all 4 skip-flag combinations x all 5 accumulations x followed by a dense layer or not x fed by the network input or a preceding layer (dense -> block of spatial layers included) x 2 data valuations (exact small-integer data; inputs multiples of 60 for mean). Oracle: reference interpreter rep_1=f(x), rep_i=f(comb(rep_{i-1},[x])) with input skips, out=comb(rep_L,[rep_1..rep_{L-1}]) with output skips. Non-trivial = reference output has >= 2 distinct non-zero entries".into(),
         bound: "L <= 4, block lists of <= 2 layers, planes 3x3 and 3x4; complete product".into(),
         exhaustive: true,
         assumptions: vec!["bit-exact agreement is counted; the verdict uses tolerance 2e-6*max|reference| for linear/ReLU blocks (division by 3 is not exact) and 5e-4*max|reference| for tanh blocks".into()],
@@ -39,8 +39,10 @@ pub fn nets() -> Vec<Net> {
         // a preceding shape-preserving convolution, and a dense layer in front of a block of spatial layers
         settings.push((Dims::Chw(1, 3, 3), vec![L::Conv { f: 1, k: (3, 3), s: (1, 1), p: (1, 1), d: (1, 1), act: Act::Linear, drop: None }], vec![conv(1)]));
         settings.push((Dims::Flat(4), vec![L::Dense { n: 9, act: Act::Linear, bias: false, drop: None }], vec![conv(1)]));
-        for (input, before, list) in settings {
-            for loops in 1..=4usize {
+        for (si, (input, before, list)) in settings.into_iter().enumerate() {
+            // beyond the small bound: L = 5..9 for the dense lists and the first convolutional one
+            let loop_counts: Vec<usize> = if si < 2 || si == 3 { (1..=9).collect() } else { (1..=4).collect() };
+            for loops in loop_counts {
                 for inskips in [false, true] {
                     for outskips in [false, true] {
                         for acc in A5 {
@@ -98,6 +100,9 @@ pub fn check(seed: u64, case: &Kv, rep: &mut Report) {
         Ok(ok) => {
             if ok.nontrivial {
                 rep.nontrivial += 1;
+            }
+            if ok.overflow {
+                rep.count("reference_outside_f32_range_skipped", 1);
             }
             if ok.exact {
                 rep.count("bit_exact_cases", 1);
